@@ -282,10 +282,50 @@ def mutate_call(g, c):
         v2 = {'__changed__': v} if g.r.random() < 0.5 else [v, 1]
         return Call(c.kind, _json.dumps(v2).encode(), c.form if c.form != 'v' else 's'), 'json-wrap'
     if c.kind == 'yaml':
-        return Call('yaml', c.payload + (b'zz_extra: 1\n' if c.payload.endswith(b'\n') else b'\nzz_extra: 1'), c.form), 'yaml-add-key'
+        if c.payload.startswith((b'#', b'/', b'[', b'-')):
+            return None, None
+        return Call('yaml', b'zz_first: 1\n' + c.payload, c.form), 'yaml-add-key'
     return None, None
 
 
 def conflated(a, b):
     """D10: two texts that differ only by `---` lines versus `/-/-/-/` lines"""
     return a != b and unesc(a) == unesc(b)
+
+
+def gen_nest(r, execs, prob=0.35):
+    """nest[i] = (host, position): execution i runs completely between two calls of execution host"""
+    nest = {}
+    for i in range(len(execs)):
+        if r.random() < prob and len(execs) > 1:
+            host = r.choice([j for j in range(len(execs)) if j != i])
+            # a test never runs inside another execution of itself
+            if host not in nest and i not in [h for h, _ in nest.values()] and execs[host][1] and execs[host][0] != execs[i][0]:
+                nest[i] = (host, r.randint(0, len(execs[host][1])))
+    return nest
+
+
+def emit_nested(w, execs, nest, texec_of, per_call):
+    """emit executions with nesting; per_call(i, k, cfgno, call, texec) adds the op(s) for one call"""
+    nest = {i: v for i, v in nest.items() if i < len(execs) and v[0] < len(execs)}
+    hosted = {}
+    for i, (host, pos) in nest.items():
+        hosted.setdefault(host, []).append((pos, i))
+
+    def emit(i):
+        name, calls = execs[i]
+        texec = texec_of(i)
+        w.add('begin %d %s' % (texec, hx(name)))
+        inner = sorted(hosted.get(i, []))
+        for k, (cfgno, c) in enumerate(calls):
+            for pos, j in inner:
+                if pos == k:
+                    emit(j)
+            per_call(i, k, cfgno, c, texec)
+        for pos, j in inner:
+            if pos >= len(calls):
+                emit(j)
+        w.add('end %d' % texec)
+    for i in range(len(execs)):
+        if i not in nest:
+            emit(i)
